@@ -729,6 +729,14 @@ func runC33(c *Ctx) error {
 		default:
 			q.kind = "handle-blocks"
 		}
+		if isLong { // long chains are there to fill a header response, also at handler level
+			switch r := rng.Intn(100); {
+			case r < 40:
+				q.kind = "headers"
+			case r < 80:
+				q.kind = "handle-headers"
+			}
+		}
 		switch q.kind {
 		case "headers":
 			q.skip, skipShape = genSkip(c, ch, start, q.stop.Height)
